@@ -1,7 +1,7 @@
 """What MANIFEST.json claims, per property.  Keep in step with the harness modules."""
 
 SOURCE_COMMITS = []
-PYVC_PROPS = set()
+PYVC_PROPS = {'C01', 'C03', 'C04', 'C06', 'C09', 'C13', 'C16', 'C17', 'C18'}
 NOTES = ('Two engines share one contract language (DESIGN.md section 2). Engine A (pyvc) is the deductive, unbounded tier; '
          'Engine B (symx) is the bounded stand-in and is labelled so in every evidence file. Exit codes: 0 held, 1 violation '
          '(replayed natively), 2 undecided, 3 checker error.')
@@ -58,6 +58,16 @@ CLAIMED = {
                 text='For p = 1..8, t = 1..4: the Bernstein-to-monomial coefficient vectors of the elevated and the original polygon are identical polynomials in the control point symbols; '
                      'reduction of an exact elevation returns the original for degree 2..8; non-Bezier input, num <= 0 and degree < 2 rejected. Exhaustive over the degree range stated.',
                 note=_B_NOTE),
+    'C03': dict(category='proof', technique='contract-based deductive verification: VCs from the AST of the real functions discharged by z3/cvc5 (pyvc); bounded symbolic execution (symx) for the variants not under an unbounded contract',
+                text='Proved for every degree, size and input (Engine A, 270+ obligations): both span searches return the unique non-empty half-open interval and agree (uniqueness lemma), '
+                     'termination of the binary search, the multiplicity count, basis_function == Cox-de Boor recursion with non-negativity and partition of unity, the list lifts, '
+                     'knotvector.generate/normalize/check and "generated vectors pass check". Bounded (Engine B, degrees 1..4/6): single-function, all-degrees and derivative variants agree, derivative rows sum to zero.',
+                note=_B_NOTE + ' Evidence counts obligations/discharged for Engine A only; Engine B instances are listed separately as bounded.'),
+    'C15': dict(category='other', technique='contracts on the tessellation functions; exhaustive enumeration of mesh topology over the stated size range + symbolic execution (symx) for vertex positions; exports parsed back',
+                text='Topology (consecutive ids, referential integrity, every interior edge shared by two oppositely oriented triangles, Euler characteristic 1, positive areas summing to the rectangle) '
+                     'for every (size_u,size_v) in [2,12]^2 quick / [2,40]^2 thorough and every dividing spacing; vertex.data == S(vertex.uv) on symbolic surfaces; OBJ/OFF/STL (ascii, binary) '
+                     'parsed back; trims: exploration-grade region match within one cell on concrete placements.',
+                note=_B_NOTE + ' The trim sub-claim is exploration-grade (concrete trims). struct.pack by contract in sym mode (A4).'),
 }
 
 _TODO = 'check not built yet in this revision (work in progress; see DESIGN.md section 7 for the planned contract)'
